@@ -67,6 +67,9 @@ func checkC16(c *Ctx) {
 			continue
 		}
 		switch {
+		case f.Name() == "FullNameEncoder" && len(args) == 2 && bd(args[0]) == "ent.LoggerName":
+			// the default name encoder called directly (instead of through a defaulted function value)
+			sites = append(sites, site{"name", call, []string{`cfg.NameKey != ""`, `ent.LoggerName != ""`}})
 		case f.Name() == "AppendString" && len(args) == 2 && bd(args[1]) == "ent.Caller.Function":
 			sites = append(sites, site{"function", call, []string{`cfg.FunctionKey != ""`, `ent.Caller.Defined`}})
 		case f.Name() == "AppendString" && len(args) == 2 && bd(args[1]) == "ent.Message":
@@ -84,8 +87,10 @@ func checkC16(c *Ctx) {
 	}
 	order := []string{"time", "level", "name", "caller", "function", "join", "message", "context", "stack", "line-ending"}
 	by := map[string]site{}
+	all := map[string][]site{}
 	for _, s := range sites {
 		by[s.n] = s
+		all[s.n] = append(all[s.n], s)
 	}
 	for _, n := range order {
 		s, ok := by[n]
@@ -96,21 +101,30 @@ func checkC16(c *Ctx) {
 		if s.want == nil {
 			continue
 		}
-		var got []string
+		// a part may be emitted at several sites (e.g. one per branch of a nil test): their guard sets are merged
+		var sets [][]string
 		Bound(func() {
-			for _, a := range AtomStrings(Guards(s.in)) {
-				if strings.Contains(a, "rangeindex") {
-					continue // after the join loop
+			for _, st := range all[n] {
+				var got []string
+				for _, a := range AtomStrings(Guards(st.in)) {
+					if strings.Contains(a, "rangeindex") {
+						continue // after the join loop
+					}
+					a = normCfg(a)
+					a = strings.ReplaceAll(a, fn.Params[0].Name()+".jsonEncoder.", "")
+					got = append(got, a)
 				}
-				a = normCfg(a)
-				a = strings.ReplaceAll(a, fn.Params[0].Name()+".jsonEncoder.", "")
-				got = append(got, a)
+				sets = append(sets, uniqSorted(got))
 			}
 		})
-		got = uniqSorted(got)
+		sets = mergeGuardSets(sets)
 		want := append([]string{}, s.want...)
 		sort.Strings(want)
-		c.Check(strings.Join(got, " ∧ ") == strings.Join(want, " ∧ "), "R16.1", name, "guards/"+n, s.in.Pos(), "the %s part is present exactly under {%s}; found {%s}", n, strings.Join(want, ", "), strings.Join(got, ", "))
+		var gotS []string
+		for _, g := range sets {
+			gotS = append(gotS, strings.Join(g, " ∧ "))
+		}
+		c.Check(len(sets) == 1 && strings.Join(sets[0], " ∧ ") == strings.Join(want, " ∧ "), "R16.1", name, "guards/"+n, s.in.Pos(), "the %s part is present exactly under {%s}; found {%s}", n, strings.Join(want, ", "), strings.Join(gotS, " | "))
 	}
 	is := func(x ssa.Instruction) func(ssa.Instruction) bool {
 		return func(i ssa.Instruction) bool { return i == x }
@@ -290,4 +304,76 @@ func checkC16(c *Ctx) {
 	c9EncoderPurity(c, "R16.3")
 	// ---------------- R16.4 ----------------
 	c1NilGuards(c, "R16.4", false)
+}
+
+// negAtomStr returns the textual negation of a normalised control atom.
+func negAtomStr(a string) string {
+	if strings.HasPrefix(a, "!") {
+		return a[1:]
+	}
+	for _, p := range [][2]string{{" != ", " == "}, {" == ", " != "}, {" >= ", " < "}, {" < ", " >= "}} {
+		if i := strings.LastIndex(a, p[0]); i > 0 && !strings.ContainsAny(a[i+len(p[0]):], "()") || i > 0 && strings.HasSuffix(a, `""`) {
+			return a[:i] + p[1] + a[i+len(p[0]):]
+		}
+	}
+	if strings.HasSuffix(a, " > 0") {
+		return strings.TrimSuffix(a, " > 0") + " == 0"
+	}
+	return "!" + a
+}
+
+// mergeGuardSets simplifies a disjunction of conjunctions: two conjunctions
+// that differ only in one atom and its negation are replaced by their common part.
+func mergeGuardSets(sets [][]string) [][]string {
+	for changed := true; changed; {
+		changed = false
+	outer:
+		for i := 0; i < len(sets); i++ {
+			for j := i + 1; j < len(sets); j++ {
+				a, b := sets[i], sets[j]
+				if len(a) != len(b) {
+					continue
+				}
+				inB := map[string]bool{}
+				for _, x := range b {
+					inB[x] = true
+				}
+				var onlyA []string
+				var common []string
+				for _, x := range a {
+					if inB[x] {
+						common = append(common, x)
+					} else {
+						onlyA = append(onlyA, x)
+					}
+				}
+				if len(onlyA) == 0 {
+					// identical
+					sets = append(sets[:j], sets[j+1:]...)
+					changed = true
+					break outer
+				}
+				if len(onlyA) != 1 || len(common) != len(a)-1 {
+					continue
+				}
+				var onlyB string
+				inA := map[string]bool{}
+				for _, x := range a {
+					inA[x] = true
+				}
+				for _, x := range b {
+					if !inA[x] {
+						onlyB = x
+					}
+				}
+				if negAtomStr(onlyA[0]) == onlyB || negAtomStr(onlyB) == onlyA[0] {
+					sets[i] = common
+					sets = append(sets[:j], sets[j+1:]...)
+					changed = true
+					break outer
+				}
+			}
+		}
+	}
+	return sets
 }
